@@ -9,9 +9,13 @@ import (
 // Small pools so that constraints hit and miss with comparable probability.
 var (
 	ifaces    = []string{"ia", "ib", "ic"}
-	names     = []string{"ia", "ib", "n1", "n2"}
+	names     = []string{"ia", "ib", "n1", "n2", "led", "buzzer", "led-admin", "xbuzzer", "xn1x", "ledbuzzer", "le"}
+	// name constraint entries: literals and top-level alternations of literals (the whole name must equal one alternative)
+	nameEntries = []string{"ia", "ib", "n1", "n2", "led", "buzzer", "led|buzzer", "buzzer|led", "n1|n2", "led|n1|buzzer", "ia|led", "n2|led-admin"}
 	attrKeys  = []string{"k1", "k2", "k3"}
-	scalars   = []string{"x", "y", "true", "5", "-3", "pub-one"}
+	scalars   = []string{"x", "y", "true", "5", "-3", "pub-one", "xq", "qy", "qxq"}
+	// attribute constraint literals and alternations of literals
+	litEntries = []string{"x", "y", "true", "5", "-3", "pub-one", "x|y", "y|5|x", "true|-3"}
 	snapIDs   = []string{"snapidsnapidsnapidsnapidsnapid01", "snapidsnapidsnapidsnapidsnapid02", "snapidsnapidsnapidsnapidsnapid03"}
 	pubIDs    = []string{"pub-one", "pub-two", "canonical"}
 	ruleTypes = []string{"core", "kernel", "gadget", "app"}
@@ -84,7 +88,7 @@ func genLeaf(r *vh.Rand) matcher {
 	case 2:
 		return matcher{K: "ref", Slot: r.Bool()}
 	default:
-		return matcher{K: "lit", S: r.Pick(scalars)}
+		return matcher{K: "lit", S: r.Pick(litEntries)}
 	}
 }
 
@@ -136,7 +140,7 @@ func genRootMatcher(r *vh.Rand) *matcher {
 }
 
 func genNames(r *vh.Rand) []string {
-	l := pickSome(r, names, 1, 2)
+	l := pickSome(r, nameEntries, 1, 2)
 	if r.Chance(1, 3) {
 		l = append(l, "$INTERFACE")
 	}
@@ -541,6 +545,30 @@ func fixedCases() []in {
 		out = append(out, in{Kind: "inst", Env: env, Type: "app", Plugs: []side{p}, Slots: []side{{Name: "n2", Iface: "ib", Type: "app"}},
 			Decl: &decl{SnapID: snapIDs[0], PubID: "pub-one", Plugs: []irule{{"ia", top}}},
 			Base: decl{Plugs: []irule{{"ia", bot}}, Slots: []irule{{"ib", top}}}, ExtraDenyPlug: any, ExtraDenySlot: none, Low: &bot})
+	}
+	// name constraints that are alternations: the whole name must equal one alternative
+	for _, nm := range []string{"led", "buzzer", "led-admin", "xbuzzer", "ledbuzzer", "le", "xn1x", "n1"} {
+		for _, entry := range []string{"led|buzzer", "led|n1|buzzer"} {
+			pr := rule{}
+			pr.Sub[2] = &subrule{One: &alt{PlugNames: []string{entry}}}
+			out = append(out, in{Kind: "conn", Env: env, Plug: side{Name: nm, Iface: "ia", Type: "app"}, Slot: s,
+				Base: decl{Plugs: []irule{{"ia", pr}}}, ExtraDenyPlug: none, ExtraDenySlot: none})
+			sr := rule{}
+			sr.Sub[5] = &subrule{One: &alt{SlotNames: []string{entry}}}
+			out = append(out, in{Kind: "auto", Env: env, Plug: p, Slot: side{Name: nm, Iface: "ia", Type: "os"},
+				Base: decl{Slots: []irule{{"ia", sr}}}, ExtraDenyPlug: none, ExtraDenySlot: none})
+			ir := rule{}
+			ir.Sub[0] = &subrule{One: &alt{PlugNames: []string{entry}}}
+			out = append(out, in{Kind: "inst", Env: env, Type: "app", Plugs: []side{{Name: nm, Iface: "ia", Type: "app"}},
+				Base: decl{Plugs: []irule{{"ia", ir}}}, ExtraDenyPlug: none, ExtraDenySlot: none})
+		}
+	}
+	// the same for attribute value regexps
+	for _, v := range []string{"x", "y", "xq", "qy", "qxq"} {
+		ar := rule{}
+		ar.Sub[2] = &subrule{One: &alt{SlotAttrs: &matcher{K: "map", M: []km{{"k1", matcher{K: "lit", S: "x|y"}}}}}}
+		out = append(out, in{Kind: "conn", Env: env, Plug: p, Slot: side{Name: "n2", Iface: "ia", Type: "os", Static: []kv{{"k1", val{K: "s", S: v}}}},
+			Base: decl{Plugs: []irule{{"ia", ar}}}, ExtraDenyPlug: none, ExtraDenySlot: none})
 	}
 	// slots-per-plug
 	for _, spp := range []string{"*", "1", "2", ""} {
